@@ -245,6 +245,15 @@ def r05_3(ctx) -> List[FunctionInfo]:
         if ok:
             verified.append(gt)
             ctx.ok("R05.3", f"{gt.short}", f"gate call on algorithms['{loc}'] dominates `return table[name]`")
+    # the name that is judged and looked up is the name that was asked for: no gate re-binds its name parameter (an alias table maps a name the
+    # caller did not allow - or another algorithm's name - onto a model)
+    for gfn in [g] + [x for x in getters if x is not None] + sorted(gate_fns, key=lambda f_: f_.qualname):
+        npar = gfn.pos_params[1]
+        for node in fn_nodes(gfn):
+            if isinstance(node, ast.Name) and node.id == npar and isinstance(node.ctx, ast.Store):
+                ctx.fail("R05.3", gfn, node, f"{gfn.short} re-binds `{npar}`, the algorithm name it was asked about: the model handed out is not the table entry of the requested name",
+                         construct=f"algorithm name re-bound in {gfn.short}")
+                verified = [v_ for v_ in verified if v_ is not gfn]
     return verified
 
 
@@ -436,6 +445,14 @@ def r05_5(ctx, verified: List[FunctionInfo]) -> None:
                         continue
                     bad.append(l)
                 inst = f"{E.short} -> {fn.short}:{norm(s.node)[:50]}"
+                # the algorithm object is looked up in THIS call: it is never carried in a field of an object that outlives the call (a token / message /
+                # recipient object); only the registry tables and the composition fields of the models themselves are read on the way
+                carried = sorted(f for f in res.fields if not (f.endswith("Registry.algorithms") or f.split(".")[0] in {c.name for c in models}))
+                if carried:
+                    ctx.fail("R05.5", fn, s.node, f"the algorithm object used for a cryptographic operation is read from the field(s) {carried} of an object that outlives "
+                             "the call: what an earlier call (with another allow-list) stored there is used without passing this call's gate",
+                             construct=f"algorithm object carried in {carried[0]} [{E.short}]")
+                    continue
                 if not gated or bad:
                     ctx.fail("R05.5", fn, s.node, "the algorithm object used for a cryptographic operation does not (only) come from "
                              f"a registry gate call: gate calls={len(gated)} other sources={sorted(repr(b) for b in bad)[:4]}",
@@ -639,9 +656,43 @@ def r05_13(ctx) -> None:
     ctx.count("R05.13", n, 12, "call sites between functions that both take `algorithms`")
 
 
+def r05_15(ctx) -> None:
+    """R05.15  "every other alg, enc or zip value ... makes the call fail (for a well-typed name with the unsupported-algorithm error)": every raise
+    that an algorithm gate (get_alg / get_enc / get_zip of the registries and what they call inside the registry modules) can reach constructs
+    UnsupportedAlgorithmError or a subclass of it."""
+    eng = ctx.eng
+    P = eng.prog
+    want = P.cls("errors:UnsupportedAlgorithmError")
+    gates = []
+    for cn in ("rfc7515.registry:JWSRegistry", "rfc7516.registry:JWERegistry"):
+        c = P.cls(cn)
+        for sub in [c] + c.all_subclasses():
+            for m in ("get_alg", "get_enc", "get_zip"):
+                if m in sub.methods:
+                    gates.append(sub.methods[m])
+    scope: List[FunctionInfo] = []
+    for g in gates:
+        for f in eng.cg.reachable([g]):
+            if f not in scope and f.module.short.endswith("registry") and f.name != "check_header" and not f.name.startswith("validate") and f.cls is not None:
+                scope.append(f)
+    n = 0
+    for f in scope:
+        for node in fn_nodes(f):
+            if not isinstance(node, ast.Raise) or node.exc is None:
+                continue
+            n += 1
+            e = node.exc.func if isinstance(node.exc, ast.Call) else node.exc
+            r = P.resolve_expr(f.module, e, f)
+            ok = isinstance(r, type(want)) and r.is_subclass_of(want)
+            ctx.check(ok, "R05.15", f, node, f"{f.short} :: {norm(node)[:60]}", f"an algorithm gate refuses a name with `{norm(e)}`, not with UnsupportedAlgorithmError",
+                      "raise UnsupportedAlgorithmError(...)", construct=f"gate raises {norm(e)} in {f.short}")
+    ctx.count("R05.15", n, 6, "raise statements reachable from the algorithm gates")
+
+
 def run(ctx) -> None:
     from .common import forwarding_discipline
-    ctx.guard(forwarding_discipline, "R05.14", ['registry', 'algorithms', 'name'], 44)  # arguments are handed on under their own name (generic routing rule, rules/common.py)
+    ctx.guard(forwarding_discipline, "R05.14", ['registry', 'algorithms', 'name', 'strict_check_header', 'verify_all_recipients'], 44)  # arguments are handed on under their own name (generic routing rule, rules/common.py)
+    ctx.guard(r05_15)
     ctx.guard(r05_13)
     ctx.guard(r05_12)
     ctx.guard(r05_10)
